@@ -31,6 +31,8 @@ func init() {
 			ruleListenerRegistered(c, "C08.REGISTER", "AddTxCompleteListener", "txCompleteListeners")
 			ruleC08Actions(c)
 			ruleCtxIdentity(c, "C08.CTXIDENTITY")
+			// updates and deletes through the parent reach a child store only through its registered strategy
+			ruleChildStrategiesAppend(c, "C08.CHILDREG")
 			ruleC08OwnFilter(c)
 		},
 	})
@@ -48,6 +50,9 @@ func init() {
 			ruleValidIds(c, "C15.VALID")
 			ruleOwnPresence(c, "C15.PRESENT")
 			ruleC15Inherit(c)
+			ruleChildStrategiesAppend(c, "C15.CHILDREG")
+			ruleIdCursorFiltered(c, "C15.IDCURSOR")
+			ruleLoadersShareLookup(c, "C15.LOADERS")
 			ruleC15Route(c)
 			ruleC15DeleteWhere(c)
 			ruleC15Chain(c)
@@ -74,6 +79,9 @@ func init() {
 			// the refusal is recorded in the entity bucket's error cell and returned at the end of Update:
 			// nothing written later may replace it by a success
 			ruleFirstErrorWins(c, "C16.FIRSTERR")
+			// the refusal of a child store's constraint comes back from processDeleteConstraints together with a
+			// change flow: it must be looked at whatever the flow is
+			ruleErrorLookedAtOnEveryPath(c, "C16.LOOKEDAT", c.prodFuncs("boltz"))
 			// a refusal recorded in the child's error holder must survive the hand-over to the parent context
 			ruleParentChain(c, "C16.CHAIN")
 		},
@@ -87,6 +95,10 @@ func init() {
 		DesignRef:   "DESIGN.md C17",
 		Explanation: "Sites: every method of DbImpl; the closures of Snapshot, MarkAsSnapshot, GetTimelineId; TimelineMode.forceResetTimeline.",
 		Trusted:     []string{"go/types", "golang.org/x/tools/go/ssa v0.29.0", "sync.RWMutex", "bbolt"},
+		Controls: []controlExpect{
+			{"C17.READLOOP", "zzControlBad_C17_READLOOP", true},
+			{"C17.READLOOP", "zzControlGood_C17_READLOOP", false},
+		},
 		Rules: func(c *Ctx) {
 			ruleC17Lock(c)
 			ruleC17Restore(c)
@@ -94,6 +106,7 @@ func init() {
 			ruleC17Timeline(c)
 			ruleC17NoCache(c)
 			ruleListenerRegistered(c, "C17.LISTENERS", "AddRestoreListener", "restoreListeners")
+			ruleReadLoop(c, "C17.READLOOP")
 		},
 	})
 }
